@@ -1,4 +1,6 @@
 import MoPepGen.Props.C02
+import MoPepGen.Generated.Expasy
+import MoPepGen.Generated.Weights
 /-!
 # C03 — FASTA headers are truthful witnesses  (PARTIAL: label bookkeeping of the traversal
 is not modelled; every emitted (peptide, entry) pair is validated by `Spec.witness`)
@@ -79,5 +81,95 @@ theorem label_counter_distinct (bs : List String) : (numberFrom [] bs).Nodup := 
     simp at this
 
 example : numberFrom [] ["T|v", "T|w", "T|v"] = [("T|v", 1), ("T|w", 1), ("T|v", 2)] := by decide
+
+/-! ### circRNA backbones -/
+
+/-- `callCirc` is the union, over the empty and every compatible combination of the records
+usable inside the circle, of `circPeptides`, minus the host's products and the canonical set:
+the witness predicate below speaks about exactly the inner expression of the definition -/
+theorem callCirc_unfold (g : Cfg) (c : List Char) (vs : List Var) (deny : List Pep) :
+    callCirc g c vs deny =
+      (([] :: haplotypes (circHost c) vs).flatMap (circPeptides g c)).filter fun p =>
+        !deny.contains p && !g.canonical.contains p := rfl
+
+/-- S: what an entry on a circRNA backbone asserts: the named records — usable records of the
+input inside the circle, mutually compatible, exactly these — are applied to the ONE molecule
+(every pass around the circle carries them) and `p` is a product form of its translation -/
+def CircRealizableByRecords (g : Cfg) (c : List Char) (vs : List Var) (ids : List Nat) (p : Pep) : Prop :=
+  ∃ h : List Var, (∀ v ∈ h, ∃ w ∈ vs, usable (circHost c) w = some v) ∧ separatedOrPaired h = true ∧
+    (∀ v ∈ h, ∀ i ∈ v.ids, i ∈ ids) ∧ (∀ i ∈ ids, ∃ v ∈ h, i ∈ v.ids) ∧ p ∈ circPeptides g c h
+
+/-- an accepted circRNA entry names only records of the input and is a witness in the
+property's sense (same records in every pass) -/
+theorem circ_entry_truthful (g : Cfg) (c : List Char) (vs : List Var) (ids : List Nat) (p : Pep)
+    (h : witnessCirc g c vs ids p = true) :
+    (∀ i ∈ ids, ∃ w ∈ vs, ∃ v, usable (circHost c) w = some v ∧ i ∈ v.ids) ∧
+      CircRealizableByRecords g c vs ids p := by
+  simp only [witnessCirc, Bool.and_eq_true, List.all_eq_true, List.any_eq_true,
+    List.contains_iff_mem] at h
+  obtain ⟨⟨hcover, hsep⟩, hp⟩ := h
+  have hr : CircRealizableByRecords g c vs ids p := by
+    refine ⟨_, ?_, hsep, ?_, ?_, hp⟩
+    · intro v hv
+      have hv' := (List.mem_filter.mp hv).1
+      rw [mem_sortByStart] at hv'
+      obtain ⟨w, hw, hu⟩ := List.mem_filterMap.mp hv'
+      exact ⟨w, hw, hu⟩
+    · intro v hv i hi
+      have := (List.mem_filter.mp hv).2
+      simp only [List.all_eq_true, List.contains_iff_mem] at this
+      exact this i hi
+    · intro i hi
+      obtain ⟨v, hv, hiv⟩ := hcover i hi
+      exact ⟨v, hv, by simpa using hiv⟩
+  refine ⟨?_, hr⟩
+  obtain ⟨hh, hin, _, _, hcov, _⟩ := hr
+  intro i hi
+  obtain ⟨v, hv, hiv⟩ := hcov i hi
+  obtain ⟨w, hw, hu⟩ := hin v hv
+  exact ⟨w, hw, v, hu, hiv⟩
+
+/-- if the completion analysis returns a set of ids, the empty or some compatible combination
+containing the named records yields the peptide on the circle; if the peptide is neither a
+product of the host nor canonical it is then a member of the DEFINITION `callCirc` -/
+theorem circ_completion_sound (g : Cfg) (c : List Char) (vs : List Var) (ids extra : List Nat)
+    (p : Pep) (deny : List Pep)
+    (h : witnessCircCompletion g c vs ids p = some extra) :
+    (∃ hp ∈ [] :: haplotypes (circHost c) vs,
+        (∀ i ∈ ids, i ∈ hp.flatMap (·.ids)) ∧ p ∈ circPeptides g c hp) ∧
+      (deny.contains p = false → g.canonical.contains p = false → p ∈ callCirc g c vs deny) := by
+  unfold witnessCircCompletion at h
+  generalize hc : ([] :: haplotypes (circHost c) vs).filter (fun h =>
+    ids.all (h.flatMap (·.ids)).contains && (circPeptides g c h).contains p) = cands at h
+  cases cands with
+  | nil => simp at h
+  | cons x xs =>
+    have hm : x ∈ ([] :: haplotypes (circHost c) vs).filter (fun h =>
+        ids.all (h.flatMap (·.ids)).contains && (circPeptides g c h).contains p) := by
+      rw [hc]; simp
+    simp only [List.mem_filter, Bool.and_eq_true, List.all_eq_true, List.contains_iff_mem] at hm
+    refine ⟨⟨x, hm.1, hm.2.1, hm.2.2⟩, ?_⟩
+    intro hd hcn
+    rw [callCirc_unfold]
+    simp only [List.mem_filter, List.mem_flatMap, Bool.and_eq_true, Bool.not_eq_true', hd, hcn,
+      and_self, and_true]
+    exact ⟨x, hm.1, hm.2.2⟩
+
+/-! non-vacuity: a 24-nt circle `ATG GCT GCT GCT GCT GCT AAG TGA` (M A A A A A K *), one SNV
+`C>A` in the second codon (A → D): the entry naming the record is accepted for `MDAAAAK`, the
+entry naming nothing is not, and the completion analysis says which record is missing -/
+def exCircCfg : Cfg :=
+  { cleave := { rule := (Generated.expasyRules.lookup "trypsin").getD [], exc := none, misc := 0,
+                minMw := 0, minLen := 7, maxLen := 25,
+                tab := Generated.proteinWeights, water := Generated.waterWeight },
+    sect := false, w2f := false, canonical := [] }
+def exCirc : List Char := "ATGGCTGCTGCTGCTGCTAAGTGA".toList
+def exCircVar : Var := { start := 4, stop := 5, ref := ['C'], alt := ['A'], cls := .snv, ids := [0] }
+
+example : witnessCirc exCircCfg exCirc [exCircVar] [0] "MDAAAAK".toList = true := by decide
+example : witnessCirc exCircCfg exCirc [exCircVar] [] "MDAAAAK".toList = false := by decide
+example : witnessCircCompletion exCircCfg exCirc [exCircVar] [] "MDAAAAK".toList = some [0] := by decide
+example : "MDAAAAK".toList ∈ callCirc exCircCfg exCirc [exCircVar] [] :=
+  (circ_completion_sound exCircCfg exCirc [exCircVar] [] [0] _ [] (by decide)).2 (by decide) (by decide)
 
 end MoPepGen.Props.C03
